@@ -668,7 +668,7 @@ impl<'a> Gen<'a> {
     fn pattern(&self, rng: &mut Rng, vars: &mut Vec<(String, Ty)>, ty: &Ty, depth: usize) -> T {
         match ty {
             Ty::I64 => {
-                if rng.chance(1, 4) {
+                if rng.chance(1, 7) {
                     T::Int(rng.range(0, 3))
                 } else {
                     self.var_or_fresh(rng, vars, ty, 3)
@@ -677,7 +677,7 @@ impl<'a> Gen<'a> {
             Ty::Cont(_) => self.var_or_fresh(rng, vars, ty, 3),
             Ty::Eq(s) => {
                 let r = rng.below(10);
-                if depth > 0 && r < 3 {
+                if depth > 0 && r < 2 {
                     let cs = self.sig.ctors_of(*s);
                     let c = rng.pick(&cs);
                     T::App(c.name.clone(), c.args.iter().map(|a| self.pattern(rng, vars, a, depth - 1)).collect())
@@ -1030,6 +1030,31 @@ impl<'a> Gen<'a> {
         }
     }
 
+    /// Seed database (ground terms and relation facts) plus a few rules, so that
+    /// rule bodies have something to match.
+    pub fn seed(&mut self, rng: &mut Rng) -> Vec<Cmd> {
+        let mut cmds = vec![];
+        let nseed = 4 + rng.below(10);
+        for _ in 0..nseed {
+            let s = rng.below(self.sig.sorts.len());
+            if rng.chance(1, 2) {
+                cmds.push(Cmd::Act(Act::Expr(self.gd(rng, &Ty::Eq(s), 1, 2))));
+            } else {
+                let r = rng.pick(&self.sig.rels);
+                let args = r.args.iter().map(|a| self.gd(rng, a, 0, 2)).collect();
+                cmds.push(Cmd::Act(Act::Expr(T::App(r.name.clone(), args))));
+            }
+        }
+        if self.cfg.rules {
+            for _ in 0..(1 + rng.below(3)) {
+                let rs = rng.below(self.sig.rulesets.len());
+                let c = if rng.chance(1, 3) { self.rewrite(rng, rs) } else { self.rule(rng, rs) };
+                cmds.push(c);
+            }
+        }
+        cmds
+    }
+
     /// Hostile template: a congruence chain of length k over a unary constructor.
     pub fn congruence_chain(&self, rng: &mut Rng) -> Option<Vec<Cmd>> {
         let un: Vec<&Ctor> = self.sig.ctors.iter().filter(|c| c.args.len() == 1 && c.args[0] == Ty::Eq(c.out)).collect();
@@ -1068,6 +1093,7 @@ pub fn gen_history(rng: &mut Rng, cfg: &GenCfg) -> (Sig, Vec<Cmd>) {
     {
         let mut g = Gen::new(&sig, cfg);
         let mut gstack: Vec<usize> = vec![];
+        cmds.extend(g.seed(rng));
         let mut i = 0;
         while i < n {
             if rng.chance(1, 12) {
@@ -1093,6 +1119,13 @@ pub fn gen_history(rng: &mut Rng, cfg: &GenCfg) -> (Sig, Vec<Cmd>) {
             }
             cmds.push(g.command(rng));
             i += 1;
+        }
+        if cfg.rules && gstack.is_empty() {
+            for (ri, rs) in sig.rulesets.iter().enumerate() {
+                if g.ruleset_nonempty[ri] {
+                    cmds.push(Cmd::Run(rs.clone(), 1 + rng.below(3) as u32));
+                }
+            }
         }
     }
     (sig, cmds)
